@@ -59,8 +59,10 @@ package net
 
 // C19: a session's goroutines share one connection per endpoint; that is safe only because a message
 // is handed to the stream in a single Write (the same clause C10 relies on).
+// (C04: an answer the service has computed is never refused locally - on a healthy connection a
+// well-formed message is always written; otherwise the caller would get no outcome at all)
 //@ func (m *Message) Write(w io.Writer) (err error)
-//@   tags C01 C10 C19
+//@   tags C01 C10 C19 C04
 //@   requires w != nil
 //@   requires len(m.Payload) <= 4294967267
 //@   modifies w.len, w.writes, w.data, w.wfailed
@@ -69,7 +71,7 @@ package net
 //@   ensures len(m.Payload) != m.Header.Size ==> err != nil && w.len == old(w.len) && w.writes == old(w.writes)
 //@   ensures err == nil ==> w.len == old(w.len) + 28 + len(m.Payload) && hdrenc(w.data, old(w.len), m.Header)
 //@   ensures err == nil ==> forall j int {w.data[j]} :: old(w.len) + 28 <= j && j < w.len ==> w.data[j] == m.Payload[j - old(w.len) - 28]
-//@   ensures w.accepting && len(m.Payload) == m.Header.Size ==> err == nil
+//@   ensures[C01,C04] w.accepting && len(m.Payload) == m.Header.Size ==> err == nil
 //@   ensures[C10,C19] w.accepting && len(m.Payload) == m.Header.Size ==> w.writes == old(w.writes) + 1
 //@   ensures[C10,C19] w.writes <= old(w.writes) + 1 || !w.accepting
 
